@@ -273,6 +273,37 @@ impl LiveSim {
             .finish(prev_root, root, page_changes, value_changes, None)
     }
 
+    /// The real `Seeker` over this live overlay, a hand-built hash table and a scripted I/O back-end
+    /// (see `seek::SeekerSim`).
+    #[allow(clippy::too_many_arguments)]
+    pub fn seeker_sim(
+        &self,
+        root: [u8; 32],
+        primary: Vec<(KeyPath, Option<seek::Val>)>,
+        secondary: Option<Vec<(KeyPath, Option<seek::Val>)>>,
+        branches: Vec<Vec<seek::LeafSpec>>,
+        record_siblings: bool,
+        table: seek::TableSim,
+        buckets: Vec<(u64, Vec<u8>)>,
+        cache: Vec<(PageId, Vec<u8>)>,
+        cached_leaves: Vec<usize>,
+        max_inflight: Option<usize>,
+    ) -> std::io::Result<seek::SeekerSim> {
+        seek::SeekerSim::new(
+            root,
+            self.live.clone(),
+            primary,
+            secondary,
+            branches,
+            record_siblings,
+            table,
+            buckets,
+            cache,
+            cached_leaves,
+            max_inflight,
+        )
+    }
+
     /// The real `SeekRequest` state machine over this live overlay (see `seek::SeekSim`).
     pub fn seek_sim(
         &self,
@@ -963,6 +994,11 @@ pub mod seek {
     pub use crate::merkle::seek_verif::{
         range_bounds, Awaiting, RequestView, SeekSim, Source, StateView, Step,
     };
+    // H34 — the REAL `Seeker` (request multiplexing: I/O slab, waiter lists, idle queues, back-pressure,
+    // completions in push order) over a scripted I/O back-end and a hand-built bitbox table.
+    pub use crate::bitbox::verif_table::TableSim;
+    pub use crate::io::PagePool;
+    pub use crate::merkle::seek_verif::{InFlight, SeekOut, SeekerSim, SeekerView, SlabView};
 }
 
 // H21 — The caches: the real `PageCache` (pinned upper levels + per-shard LRU, root slot), the real `LeafCache`
